@@ -151,6 +151,13 @@ def run_case(spec, ctx):
                 f_tau = lambda tt, qq, uu: dense(S.W_tau(tt, qq)) @ S.la_tau(tt, qq, uu)
                 so.jac_call(ctx, f"{label}.Wla_tau_q", lambda: S.Wla_tau_q(t, q, u), lambda x: f_tau(t, x, u), q, ex, _key, mon="D:Wla_tau_q")
                 so.jac_call(ctx, f"{label}.Wla_tau_u", lambda: S.Wla_tau_u(t, q, u), lambda x: f_tau(t, q, x), u, ex, _key, mon="D:Wla_tau_u")
+            # ---- the same state again, in another order: Jacobians must not depend on what was evaluated before
+            calls = [("h_q", lambda: S.h_q(t, q, u)), ("h_u", lambda: S.h_u(t, q, u)), ("h", lambda: S.h(t, q, u)), ("q_dot_q", lambda: S.q_dot_q(t, q, u))]
+            if S.nla_c:
+                calls += [("c_q", lambda: S.c_q(t, q, u, la_c)), ("c_u", lambda: S.c_u(t, q, u, la_c)), ("Wla_c_q", lambda: S.Wla_c_q(t, q, la_c)), ("c", lambda: S.c(t, q, u, la_c))]
+            if S.nla_tau:
+                calls += [("Wla_tau_q", lambda: S.Wla_tau_q(t, q, u)), ("Wla_tau_u", lambda: S.Wla_tau_u(t, q, u)), ("la_tau", lambda: S.la_tau(t, q, u))]
+            so.repeat_consistency(ctx, label, calls, extra=ex)
     ctx.sig([det], nontrivial=True)
     ctx.sample(det)
 
